@@ -6,4 +6,12 @@ GROUPS = [
           bound="nstruct <= 3 (column and integer-mark loops completely unwound, unwinding assertions on); nrows <= 4 and all values symbolic; every combination of present/absent pricing work arrays",
           must_fail=["reach_end", "reach_copy_ok"], functions=["QScopy_prob"], props=["C16", "C17"],
           assumed=["qsc/QScopy_prob: QScreate_prob (fresh empty problem, as qsopt.c:512), ILLlib_newrows/ILLlib_addcol (argument-recording stubs; their effect is C06), symbol table, ILLutil_str, reporter copy and QSfree_prob are stubs"]),
+    Group("qsc/copy_mpq_dbl", "exact_copy.c", tus=["exact.c"], model=MODEL, defines=[], dfcc=False, unwind=6, kind="bounded", flags=["--no-malloc-may-fail"],
+          bound="fixed dimension 2 columns x 2 rows x 3 coefficients, values in {-inf, -2..2, +inf}; loops completely unwound",
+          functions=["QScopy_prob_mpq_dbl", "QScopy_array_mpq_dbl"], props=["C16", "C17"],
+          assumed=["qsc/copy_mpq_*: query API of the rational problem and construction API of the target are stubs; mpq_get_d / mpf_set_q are the GMP model's payload copies (their accuracy -- within one unit in the last place -- is GMP's documented contract, assumed)"]),
+    Group("qsc/copy_mpq_mpf", "exact_copy.c", tus=["exact.c"], model=MODEL, defines=["TO_MPF"], dfcc=False, unwind=6, kind="bounded", flags=["--no-malloc-may-fail"],
+          bound="fixed dimension 2 columns x 2 rows x 3 coefficients, values in {-inf, -2..2, +inf}; loops completely unwound",
+          functions=["QScopy_prob_mpq_mpf", "QScopy_array_mpq_mpf"], props=["C16", "C17"],
+          assumed=["qsc/copy_mpq_*: query API of the rational problem and construction API of the target are stubs; mpq_get_d / mpf_set_q are the GMP model's payload copies (their accuracy -- within one unit in the last place -- is GMP's documented contract, assumed)"]),
 ]
